@@ -29,7 +29,7 @@ META = {
     "claim": "for every history up to the depth bound over the name universe: the number of generated certificates held never exceeds the capacity, every returned "
              "certificate is a registered custom one matching a requested name or a generated one whose CN/SAN are exactly the request, and an identical request returns "
              "the identical entry as long as that entry is still held; model checking because the store is a small state machine whose transition function is called directly",
-    "rule": "a case is a history of get_cert(cn, sans) over 7 request shapes and add_cert of 5 custom certificates; states are merged on (keys of certs with entry identity classes, "
+    "rule": "a case is a history of get_cert(cn, sans[, organization]) over 9 request shapes and add_cert of 5 custom certificates; states are merged on (keys of certs with entry identity classes, "
             "expire_queue order, custom registrations, last answer per request shape); non-trivial = the history contains at least one call",
     "assumptions": [
         "name universe {a.example, b.a.example, example, 10.0.0.1}; custom certificates {a.example, *.a.example, *.example, '*' (spec), 10.0.0.1}",
@@ -37,7 +37,9 @@ META = {
         "which of several matching custom certificates is preferred, and whether a custom certificate registered later takes precedence over a cached generated one, is not constrained "
         "(same_request_same_cert is only judged when no add_cert happened between the two requests)",
         "'while it is cached' is read from the store itself: the earlier answer is still a value of store.certs",
-        "organization / crl_url arguments are not varied (they are not part of the cache key by design)",
+        "name universe additionally contains one host name longer than 63 characters (no CN in the generated certificate) and one request shape with organization=; "
+        "crl_url is not varied; whether the organization of a cached certificate matches the request is not judged (the statement speaks about names)",
+        "generated_le_cap counts the distinct non-custom entries reachable from the store's own certs dict and expire_queue",
         "the CA key is generated once per process under /dev/shm/vmc-<pid>/ and shared by all stores",
     ],
 }
@@ -88,21 +90,29 @@ CUSTOM_SPECS = [
     (None, [ip("10.0.0.1")], ()),
 ]
 
-# request shapes: (cn, sans)
+# a legal host name of more than 63 characters: dummy_cert leaves the CN out of such certificates
+LONG = "l" * 60 + ".a.example"
+
+# request shapes: (cn, sans, organization) - every argument class get_cert distinguishes: CN with its own SAN, other
+# name, single label, IP, two SANs, no CN, no SAN, a CN too long for the subject, and the organization the TlsConfig
+# addon passes along when the upstream certificate carries one
 REQUESTS = [
-    ("a.example", [dns("a.example")]),
-    ("b.a.example", [dns("b.a.example")]),
-    ("example", [dns("example")]),
-    ("10.0.0.1", [ip("10.0.0.1")]),
-    ("a.example", [dns("a.example"), dns("b.a.example")]),
-    (None, [dns("b.a.example")]),
-    ("a.example", []),
+    ("a.example", [dns("a.example")], None),
+    ("b.a.example", [dns("b.a.example")], None),
+    ("example", [dns("example")], None),
+    ("10.0.0.1", [ip("10.0.0.1")], None),
+    ("a.example", [dns("a.example"), dns("b.a.example")], None),
+    (None, [dns("b.a.example")], None),
+    ("a.example", [], None),
+    (LONG, [dns(LONG)], None),
+    ("b.a.example", [dns("b.a.example")], "Example Org"),
 ]
-REQ_CLASS = ["cn+san", "cn+san", "cn+san", "ip", "cn+2san", "san-only", "cn-only"]
+REQ_CLASS = ["cn+san", "cn+san", "cn+san", "ip", "cn+2san", "san-only", "cn-only", "long-cn", "cn+san+org"]
 
 CAP = 2
-# reduced alphabet for the deeper search: a.example, b.a.example, the two-SAN request, the SAN-only request; customs a.example, *.a.example, '*'
-DEEP_REQS = [0, 1, 4, 5]
+# reduced alphabet for the deeper search: a.example, the two-SAN request, the SAN-only request, the long CN, the request
+# with an organization; customs a.example, *.a.example, '*'
+DEEP_REQS = [0, 4, 5, 7, 8]
 DEEP_CUSTOMS = [0, 1, 3]
 
 
@@ -186,13 +196,19 @@ def held_generated(store):
 
 
 def do_get(s: Sys, ri, phase="bfs", req=None):
-    cn, sans = req if req is not None else REQUESTS[ri]
-    rclass = REQ_CLASS[ri] if req is None else "cn+san"
+    if req is not None:
+        cn, sans, org, rclass = req
+    else:
+        cn, sans, org = REQUESTS[ri]
+        rclass = REQ_CLASS[ri]
     f = {"op": "get", "req": rclass, "phase": phase}
     prev = s.last.get(ri if req is None else (cn,))
     prev_cached = prev is not None and any(v is prev[0] for v in s.store.certs.values())
     try:
-        e = s.store.get_cert(cn, list(sans))
+        if org is None:
+            e = s.store.get_cert(cn, list(sans))
+        else:
+            e = s.store.get_cert(cn, list(sans), organization=org)
     except KeyboardInterrupt:
         raise
     except BaseException as ex:
@@ -289,7 +305,10 @@ class Spec:
         def kname(k):
             if isinstance(k, str):
                 return k
-            return [k[0], [str(x.value) for x in k[1]]]
+            try:
+                return [k[0], [str(x.value) for x in k[1]]] + [repr(x) for x in k[2:]]
+            except Exception:  # a key of another shape: still a deterministic description
+                return repr(k)
 
         return {
             "certs": [[kname(k), tok[id(v)]] for k, v in s.store.certs.items()],
@@ -333,22 +352,27 @@ def linear(t: Tally, n=130, verbose=False):
     # a custom wildcard certificate must not consume capacity
     do_add(s, 1, "linear")
     flush("add")
+    def lin_req(k):
+        # every 7th name is longer than 63 characters, every 5th request carries an organization
+        name = ("h%03d." % k) + ("l" * 56 + "." if k % 7 == 3 else "") + "t.example"
+        org = "Example Org" if k % 5 == 2 else None
+        rclass = "long-cn" if k % 7 == 3 else ("cn+san+org" if org else "cn+san")
+        return (name, [dns(name)], org, rclass)
+
     for i in range(n):
-        name = "h%03d.t.example" % i
-        e = do_get(s, None, "linear", (name, [dns(name)]))
+        e = do_get(s, None, "linear", lin_req(i))
         entries.append(e)
         flush(i)
         # an identical request right away, and the oldest request that must still be cached
-        do_get(s, None, "linear", (name, [dns(name)]))
+        do_get(s, None, "linear", lin_req(i))
         j = max(0, i - cap + 1)
-        nm = "h%03d.t.example" % j
-        e2 = do_get(s, None, "linear", (nm, [dns(nm)]))
+        e2 = do_get(s, None, "linear", lin_req(j))
         t.judge("same_request_same_cert_while_cached", e2 is entries[j], {"op": "get", "req": "cn+san", "hit": "generated", "phase": "linear"}, case,
                 "entry of step %d" % j, "another entry at step %d" % i)
         flush(i)
         if i % 10 == 0:
             # a name covered by the custom wildcard in between
-            e3 = do_get(s, None, "linear", ("w%d.a.example" % i, [dns("w%d.a.example" % i)]))
+            e3 = do_get(s, None, "linear", ("w%d.a.example" % i, [dns("w%d.a.example" % i)], None, "cn+san"))
             t.judge("custom_matches_requested_name", e3 is setup()["custom"][1], {"op": "get", "req": "cn+san", "hit": "custom", "phase": "linear"}, case, "custom *.a.example", "something else")
             flush(i)
         t.case(None, True, "linear|%d" % i)
@@ -358,7 +382,7 @@ def linear(t: Tally, n=130, verbose=False):
     t.add("linear_requests", n)
     t.add("linear_generated_held_at_end", held)
     # the first name has been evicted: a new request gets a new certificate for exactly that name
-    e = do_get(s, None, "linear", ("h000.t.example", [dns("h000.t.example")]))
+    e = do_get(s, None, "linear", lin_req(0))
     flush("re-request evicted")
     t.add("linear_evicted_name_regenerated", int(e is not entries[0]))
     t.executions += 1
@@ -369,13 +393,16 @@ def linear(t: Tally, n=130, verbose=False):
 def run(ctx):
     setup()
     # measured: one get_cert miss costs 1.2 ms and vmc.explore.bfs replays every frontier history from scratch,
-    # so the full 12-action alphabet is explored to depth 4 (quick) / 5 (thorough, 39 k states); thorough adds a
-    # depth-7 search over a reduced alphabet (4 request shapes, 3 custom certificates)
+    # so the full 14-action alphabet is explored to depth 4 (quick) / 5 (thorough); thorough adds a
+    # depth-7 search over a reduced alphabet (5 request shapes, 3 custom certificates)
     depth = ctx.pick(4, 5)
-    ctx.bounds = {"bfs_depth": depth, "STORE_CAP_for_bfs": CAP, "request_shapes": ["%s / %s" % (cn, [str(x.value) for x in sans]) for cn, sans in REQUESTS],
+    ctx.bounds = {"bfs_depth": depth, "STORE_CAP_for_bfs": CAP,
+                  "request_shapes": ["%s / %s / organization=%s" % (cn, [str(x.value) for x in sans], org) for cn, sans, org in REQUESTS],
                   "custom_certificates": [registered_names_of_custom(i) for i in range(len(CUSTOM_SPECS))],
-                  "linear_run": "130 distinct names with the shipped STORE_CAP=%d" % certs.CertStore.STORE_CAP}
-    states, capped = explore.bfs(Spec(), depth, ctx.tally, log=ctx.log)
+                  "linear_run": "130 distinct names (every 7th longer than 63 characters, every 5th with an organization) with the shipped STORE_CAP=%d" % certs.CertStore.STORE_CAP}
+    # quick tier: 13 s of CPU in total (measured), less than what starting a process pool per BFS level costs on a
+    # busy machine - run it in-process; thorough is ~6x larger and uses the pool
+    states, capped = explore.bfs(Spec(), depth, ctx.tally, log=ctx.log, nproc=None if ctx.thorough else 1)
     if capped:
         ctx.cap("max_states")
     ctx.log("bfs (full alphabet, depth %d): %d states" % (depth, states))
